@@ -291,3 +291,365 @@ impl Part for C06 {
         "generated target actor (named, in 0-2 groups, 0-2 children, linked under a logging supervisor; Send or thread-local) with a generated exit cause (stop, drain, kill, task abort, failing handler/post_stop, supervisor exit) and 1-4 waiter clients (wait/stop_and_wait/kill_and_wait/drain_and_wait with and without timeouts, join handle, repeated and late calls) started after generated delays, an unconditional late kill, schedule bytes; oracle = world snapshot taken in the very step a waiter returns + exact virtual-time timeout rule + no stuck waiter + monotone sampled status; non-trivial = a waiter's interval overlaps the target's Stopping..Stopped interval, or >=2 waiters began after Stopped"
     }
 }
+
+// =====================================================================================
+// E2 / free-running parts: wait() vs. the real exit clean-up on OS threads
+
+pub mod e2part {
+    use std::sync::{Arc, Mutex};
+
+    use proptest::prelude::*;
+    use ractor::verif::{DetachedPorts, LifecycleHandle};
+    use ractor::{ActorCell, SupervisionEvent};
+    use serde::{Deserialize, Serialize};
+
+    use crate::core::{viol, Violation};
+    use crate::e2::{run_threads, run_threads_free, E2Run, Sched, ThreadCtx};
+    use crate::gen;
+    use crate::props::c07::Dummy;
+    use crate::runner::*;
+
+    #[derive(Clone, Debug, PartialEq, Eq, Serialize, Deserialize)]
+    pub enum WOp {
+        /// the real lifecycle clean-up of the target (what the actor task does when it ends)
+        Exit,
+        Wait,
+        /// a no-op operation (only its surrounding schedule points matter)
+        Nop,
+        Stop,
+        Kill,
+    }
+
+    #[derive(Clone, Debug, Serialize, Deserialize)]
+    pub struct Case {
+        pub programs: Vec<Vec<WOp>>,
+        pub schedule: Vec<u8>,
+    }
+
+    #[derive(Clone, Debug, PartialEq)]
+    pub enum RW {
+        Done,
+        /// what the waiter saw the moment wait() returned
+        Returned { status: u8, name_hit: bool, pid_hit: bool, in_group: bool, children: usize, child_points: bool, sup_events: usize, child_killed: bool, has_sup: bool },
+        LostWakeup,
+    }
+
+    pub struct Shared {
+        t: ActorCell,
+        c: ActorCell,
+        name: String,
+        group: String,
+        t_ports: Mutex<Option<DetachedPorts>>,
+        s_ports: Mutex<DetachedPorts>,
+        c_ports: Mutex<DetachedPorts>,
+        sup_events: Mutex<usize>,
+        child_killed: Mutex<bool>,
+        exited: Mutex<bool>,
+    }
+
+    static N: std::sync::atomic::AtomicU64 = std::sync::atomic::AtomicU64::new(0);
+
+    fn setup() -> (Arc<Shared>, ActorCell) {
+        let n = N.fetch_add(1, std::sync::atomic::Ordering::Relaxed);
+        let name = format!("c06e2_{}_{}", std::process::id(), n);
+        let group = format!("c06e2g_{}_{}", std::process::id(), n);
+        let (s, s_ports) = ractor::verif::detached_cell::<Dummy>(None).unwrap();
+        let (t, t_ports) = ractor::verif::detached_cell::<Dummy>(Some(name.clone())).unwrap();
+        let (c, c_ports) = ractor::verif::detached_cell::<Dummy>(None).unwrap();
+        for cell in [&s, &t, &c] {
+            ractor::verif::set_status(cell, ractor::ActorStatus::Running);
+        }
+        assert!(ractor::verif::try_link(&t, s.clone()));
+        assert!(ractor::verif::try_link(&c, t.clone()));
+        ractor::pg::join(group.clone(), vec![t.clone()]);
+        (
+            Arc::new(Shared {
+                t,
+                c,
+                name,
+                group,
+                t_ports: Mutex::new(Some(t_ports)),
+                s_ports: Mutex::new(s_ports),
+                c_ports: Mutex::new(c_ports),
+                sup_events: Mutex::new(0),
+                child_killed: Mutex::new(false),
+                exited: Mutex::new(false),
+            }),
+            s,
+        )
+    }
+
+    fn exec(sh: &Shared, ctx: &ThreadCtx, _tid: usize, op: &WOp) -> RW {
+        match op {
+            WOp::Nop => RW::Done,
+            WOp::Stop => {
+                sh.t.stop(None);
+                RW::Done
+            }
+            WOp::Kill => {
+                sh.t.kill();
+                RW::Done
+            }
+            WOp::Exit => {
+                {
+                    let mut e = sh.exited.lock().unwrap();
+                    if *e {
+                        return RW::Done;
+                    }
+                    *e = true;
+                }
+                // the exiting task drops its port set, then its guard finishes
+                drop(sh.t_ports.lock().unwrap().take());
+                let mut h = LifecycleHandle::new(sh.t.clone());
+                h.mark_running();
+                h.finish(SupervisionEvent::ActorTerminated(sh.t.clone(), None, Some("bye".into())));
+                RW::Done
+            }
+            WOp::Wait => match ctx.block_on(sh.t.wait(None)) {
+                None => RW::LostWakeup,
+                Some(_) => {
+                    // drain what the supervisor / child have received so far into the shared counters
+                    {
+                        let mut sp = sh.s_ports.lock().unwrap();
+                        let mut n = sh.sup_events.lock().unwrap();
+                        while let Some(e) = sp.try_recv_supervision() {
+                            if matches!(e, SupervisionEvent::ActorTerminated(..) | SupervisionEvent::ActorFailed(..)) {
+                                *n += 1;
+                            }
+                        }
+                    }
+                    {
+                        let mut cp = sh.c_ports.lock().unwrap();
+                        if cp.try_recv_signal().is_some() {
+                            *sh.child_killed.lock().unwrap() = true;
+                        }
+                    }
+                    RW::Returned {
+                        status: sh.t.get_status() as u8,
+                        name_hit: ractor::registry::where_is(&sh.name).map_or(false, |x| x.get_id() == sh.t.get_id()),
+                        pid_hit: ractor::registry::where_is_pid(sh.t.get_id()).is_some(),
+                        in_group: ractor::pg::get_members(&sh.group).iter().any(|m| m.get_id() == sh.t.get_id()),
+                        children: sh.t.get_children().len(),
+                        child_points: sh.c.try_get_supervisor().map_or(false, |p| p.get_id() == sh.t.get_id()),
+                        sup_events: *sh.sup_events.lock().unwrap(),
+                        child_killed: *sh.child_killed.lock().unwrap(),
+                        has_sup: sh.t.try_get_supervisor().is_some(),
+                    }
+                }
+            },
+        }
+    }
+
+    pub fn strategy() -> BoxedStrategy<Case> {
+        let waiter = (0usize..4, 1usize..=2).prop_map(|(d, n)| {
+            let mut v = vec![WOp::Nop; d];
+            v.extend(vec![WOp::Wait; n]);
+            v
+        });
+        let exiter = (0usize..4, prop_oneof![3 => Just(None), 1 => Just(Some(WOp::Stop)), 1 => Just(Some(WOp::Kill))]).prop_map(|(d, pre)| {
+            let mut v = vec![WOp::Nop; d];
+            v.extend(pre);
+            v.push(WOp::Exit);
+            v
+        });
+        (exiter, proptest::collection::vec(waiter, 1..=3), gen::schedule(64))
+            .prop_map(|(e, ws, schedule)| {
+                let mut programs = vec![e];
+                programs.extend(ws);
+                Case { programs, schedule }
+            })
+            .boxed()
+    }
+
+    fn judge(case: &Case, run: &E2Run<RW>) -> Result<(bool, Vec<String>), Violation> {
+        let mut overlap = false;
+        let exit_iv = run.recs.iter().find(|r| case.programs[r.tid][r.idx] == WOp::Exit).map(|r| (r.start, r.end));
+        let mut late = 0;
+        for r in &run.recs {
+            if case.programs[r.tid][r.idx] != WOp::Wait {
+                continue;
+            }
+            match &r.res {
+                RW::LostWakeup => {
+                    return Err(viol("C06/lost-wakeup", format!("thread {} is blocked in wait() forever although the exit completed (exit interval {exit_iv:?}, wait began at {})", r.tid, r.start)));
+                }
+                RW::Returned { status, name_hit, pid_hit, in_group, children, child_points, sup_events, child_killed, has_sup } => {
+                    if *status != 6 {
+                        return Err(viol("C06/returned-before-stopped", format!("wait() returned with status {status}")));
+                    }
+                    if *name_hit || *pid_hit {
+                        return Err(viol("C06/name-or-pid-still-registered", format!("wait() returned but name_hit={name_hit} pid_hit={pid_hit}")));
+                    }
+                    if *in_group {
+                        return Err(viol("C06/still-in-groups", "wait() returned but the actor is still a group member"));
+                    }
+                    if *children != 0 || *child_points || *has_sup {
+                        return Err(viol("C06/children-not-released", format!("wait() returned but children={children} child_points={child_points} has_supervisor={has_sup}")));
+                    }
+                    if *sup_events != 1 {
+                        return Err(viol("C06/supervisor-not-told", format!("wait() returned but the supervisor's port holds {sup_events} terminal events")));
+                    }
+                    if !*child_killed {
+                        return Err(viol("C06/child-not-signalled", "wait() returned but the child's signal port is empty"));
+                    }
+                    if let Some((es, ee)) = exit_iv {
+                        if r.start < ee && es < r.end {
+                            overlap = true;
+                        }
+                        if r.start > ee {
+                            late += 1;
+                        }
+                    }
+                }
+                RW::Done => {}
+            }
+        }
+        if run.deadlock {
+            return Err(viol("C06/lost-wakeup", "all remaining threads are blocked in wait() (deadlock verdict)"));
+        }
+        Ok(((overlap && run.preemptions > 0) || late >= 2, vec![]))
+    }
+
+    fn cleanup(sh: &Shared, s: &ActorCell) {
+        for cell in [&sh.t, &sh.c, s] {
+            ractor::verif::set_status(cell, ractor::ActorStatus::Stopped);
+        }
+    }
+
+    pub fn run_case(case: &Case, want_trace: bool, sched: Sched) -> (Outcome, Vec<(usize, usize)>) {
+        let (sh, s) = setup();
+        let run = run_threads(sh.clone(), case.programs.clone(), sched, exec);
+        cleanup(&sh, &s);
+        let trace = if want_trace {
+            run.recs.iter().map(|r| format!("thread {} op {} {:?} [{}..{}] -> {:?}", r.tid, r.idx, case.programs[r.tid][r.idx], r.start, r.end, r.res)).collect()
+        } else {
+            vec![]
+        };
+        let log = run.choice_log.clone();
+        let o = match judge(case, &run) {
+            Err(v) => Outcome { verdict: Verdict::Fail(v), nontrivial: false, labels: vec![], trace },
+            Ok((nt, labels)) => Outcome { verdict: Verdict::Pass, nontrivial: nt, labels, trace },
+        };
+        (o, log)
+    }
+
+    pub struct C06E2;
+    impl Part for C06E2 {
+        type Case = Case;
+        const PROP: &'static str = "C06";
+        const PART: &'static str = "e2";
+        fn cases(tier: Tier) -> u32 {
+            match tier {
+                Tier::Quick => 30_000,
+                Tier::Thorough => 1_000_000,
+            }
+        }
+        fn strategy(_tier: Tier) -> BoxedStrategy<Case> {
+            strategy()
+        }
+        fn run(case: &Case, want_trace: bool) -> Outcome {
+            run_case(case, want_trace, Sched::Bytes(case.schedule.clone())).0
+        }
+        fn rule() -> &'static str {
+            "controlled OS threads over detached cells (supervisor, named+grouped target, child): one thread runs the target's real exit clean-up (port-set drop + lifecycle guard), 1-3 threads call wait() (1-2 times, after generated delays) under a minimal block_on; preemption at every verif_point! inside wait(), set_status, the clean-up steps and notify_stop_listener; oracle = snapshot at the moment wait() returns (Stopped, name/pid/group gone, links released, supervisor's port already holds the terminal event, child's signal port holds Kill) + deadlock verdict (a blocked waiter after the exit completed = lost wake-up); non-trivial = a wait interval overlaps the exit interval with >=1 preemption, or >=2 waits began after the exit"
+        }
+    }
+
+    #[derive(Clone, Debug, Serialize, Deserialize)]
+    pub struct XCase {
+        pub programs: Vec<Vec<WOp>>,
+        pub choices: Vec<usize>,
+        pub max_preempt: u32,
+    }
+
+    pub struct C06E2X;
+    impl Part for C06E2X {
+        type Case = XCase;
+        const PROP: &'static str = "C06";
+        const PART: &'static str = "e2-exhaustive";
+        const EXHAUSTIVE: bool = true;
+        fn cases(_tier: Tier) -> u32 {
+            0
+        }
+        fn strategy(_tier: Tier) -> BoxedStrategy<XCase> {
+            Just(XCase { programs: vec![], choices: vec![], max_preempt: 0 }).boxed()
+        }
+        fn enumerate(tier: Tier, visit: &mut dyn FnMut(&XCase, Outcome) -> bool) {
+            let bound = if tier == Tier::Quick { 2 } else { 3 };
+            let progs = vec![
+                vec![vec![WOp::Exit], vec![WOp::Wait]],
+                vec![vec![WOp::Exit], vec![WOp::Wait], vec![WOp::Wait]],
+                vec![vec![WOp::Exit], vec![WOp::Wait, WOp::Wait]],
+            ];
+            for programs in progs {
+                let case = Case { programs: programs.clone(), schedule: vec![] };
+                let (_n, complete) = crate::e2::enumerate_schedules(2_000_000, |choices| {
+                    let (mut o, log) = run_case(&case, false, Sched::Explicit(choices.clone(), Some(bound)));
+                    o.nontrivial = log.iter().any(|c| c.0 != 0);
+                    let xc = XCase { programs: programs.clone(), choices: log.iter().map(|c| c.0).collect(), max_preempt: bound };
+                    if !visit(&xc, o) {
+                        return vec![];
+                    }
+                    log
+                });
+                if !complete {
+                    return;
+                }
+            }
+        }
+        fn run(case: &XCase, want_trace: bool) -> Outcome {
+            let c = Case { programs: case.programs.clone(), schedule: vec![] };
+            let mut o = run_case(&c, want_trace, Sched::Explicit(case.choices.clone(), Some(case.max_preempt))).0;
+            o.nontrivial = case.choices.iter().any(|c| *c != 0);
+            o
+        }
+        fn rule() -> &'static str {
+            "bounded exhaustive generation: every schedule with at most 2 (quick) / 3 (thorough) preemptions of {exit|wait}, {exit|wait|wait}, {exit|wait;wait}; same oracle as part e2"
+        }
+    }
+
+    #[derive(Clone, Debug, Serialize, Deserialize)]
+    pub struct FreeCase {
+        pub programs: Vec<Vec<WOp>>,
+        pub spin: Vec<u32>,
+        pub rounds: u16,
+    }
+
+    pub struct C06Free;
+    impl Part for C06Free {
+        type Case = FreeCase;
+        const PROP: &'static str = "C06";
+        const PART: &'static str = "free";
+        const DETERMINISTIC: bool = false;
+        fn cases(tier: Tier) -> u32 {
+            match tier {
+                Tier::Quick => 1_600,
+                Tier::Thorough => 60_000,
+            }
+        }
+        fn strategy(_tier: Tier) -> BoxedStrategy<FreeCase> {
+            (strategy(), proptest::collection::vec(0u32..3000, 4)).prop_map(|(c, spin)| FreeCase { programs: c.programs, spin, rounds: 10 }).boxed()
+        }
+        fn run(case: &FreeCase, want_trace: bool) -> Outcome {
+            let c = Case { programs: case.programs.clone(), schedule: vec![] };
+            let mut nontrivial = false;
+            for _ in 0..case.rounds {
+                let (sh, s) = setup();
+                let run = run_threads_free(sh.clone(), c.programs.clone(), case.spin.clone(), exec);
+                cleanup(&sh, &s);
+                match judge(&c, &run) {
+                    Err(mut v) => {
+                        v.msg = format!("(free-running threads; observed history) {}", v.msg);
+                        let trace = if want_trace { run.recs.iter().map(|r| format!("thread {} op {} [{}..{}] -> {:?}", r.tid, r.idx, r.start, r.end, r.res)).collect() } else { vec![] };
+                        return Outcome { verdict: Verdict::Fail(v), nontrivial: false, labels: vec![], trace };
+                    }
+                    Ok((nt, _)) => nontrivial |= nt,
+                }
+            }
+            Outcome { verdict: Verdict::Pass, nontrivial, labels: vec![], trace: vec![] }
+        }
+        fn rule() -> &'static str {
+            "the programs of part e2 on free-running OS threads (barrier start, generated busy-wait offsets, 10 rounds per case; a wait() that is not woken within 3 s of real time after the exit completed counts as a lost wake-up); same snapshot oracle; non-trivial = a wait interval overlapped the exit interval or >=2 waits began after it"
+        }
+    }
+}
